@@ -222,6 +222,33 @@ impl ResolvedAccountPolicy {
     }
 }
 
+#[cfg(feature = "verif-hooks")]
+pub(crate) fn verif_fold(
+    policies: Vec<crate::verif_hooks::VerifPolicy>,
+) -> crate::verif_hooks::VerifResolvedPolicy {
+    let r = ResolvedAccountPolicy::fold_from(policies.into_iter().map(|p| AccountPolicy {
+        privilege_expiry: p.privilege_expiry,
+        authsession_expiry: p.authsession_expiry,
+        pw_min_length: p.pw_min_length,
+        credential_policy: p.credential_policy,
+        webauthn_att_ca_list: p.webauthn_att_ca_list,
+        limit_search_max_filter_test: p.limit_search_max_filter_test,
+        limit_search_max_results: p.limit_search_max_results,
+        allow_primary_cred_fallback: p.allow_primary_cred_fallback,
+    }));
+    crate::verif_hooks::VerifResolvedPolicy {
+        privilege_expiry: r.privilege_expiry,
+        authsession_expiry: r.authsession_expiry,
+        pw_min_length: r.pw_min_length,
+        pw_max_length: r.pw_max_length,
+        credential_policy: r.credential_policy,
+        webauthn_att_ca_list: r.webauthn_att_ca_list,
+        limit_search_max_filter_test: r.limit_search_max_filter_test,
+        limit_search_max_results: r.limit_search_max_results,
+        allow_primary_cred_fallback: r.allow_primary_cred_fallback,
+    }
+}
+
 #[cfg(test)]
 mod tests {
     use super::{AccountPolicy, CredentialType, ResolvedAccountPolicy};
